@@ -126,6 +126,11 @@ class Runner:
         it.owned = {}
         for name, val in (owned or {}).items():
             register_owned(it, name, val)
+        # module-level mutable containers are shared state: writes to them are history dependence
+        for mname, ns in it.modules.items():
+            for var, val in ns.globals.items():
+                if isinstance(val, (list, dict, set)) and not var.startswith('__'):
+                    it.owned[id(val)] = f'module-state:{mname}.{var}'
         try:
             v = it.call(fn, list(args), dict(kwargs or {}), None)
             return Outcome('return', value=v, events=it.events, interp=it)
